@@ -113,7 +113,7 @@ def _mk(op, tab, pid, ident, cached, cache, gone, cls):
 
 
 def gen_cases(rng, tier):
-    n_rand = {"quick": 900, "thorough": 30000, "search": 2500}[tier]
+    n_rand = {"quick": 900, "thorough": 20000, "search": 2500}[tier]
     max_hang = {"quick": 40, "thorough": 400, "search": 40}[tier]
     cases = []
     hang = 0
@@ -361,14 +361,15 @@ def impl_run(case, coq, env):
 MANIFEST = {
     "text": "Theorems (Coq, closed under the global context) about a line-by-line model of Process.children/parent/parents/ppid and "
             "ppid_map over an arbitrary process table (pid, ppid, start ticks; self-loops, cycles, unlisted parents, any start order, "
-            "any size, processes vanishing after the snapshot): children() = the listed processes naming the caller as parent, not older "
-            "than it; children(recursive=True) terminates within |table|+1 loop iterations on ANY parent-link graph, returns every process "
-            "at most once and exactly the processes reachable through parent links; parent() = the process named by ppid() unless unlisted "
-            "or younger (None for the root); parents() = the chain of parent() whenever that chain ends, and it ends within |table| steps on "
-            "every acyclic table; all calls raise NoSuchProcess for a recycled caller. Refuted (witness replayed on the real code): the "
-            "caller itself is returned by children() on a ppid self-loop/cycle; parents() does not terminate on a self-loop or an equal-tick "
-            "cycle; parent() depends on a stale lowest-PID cache; parent() of a recycled lowest PID returns None. The model is tied to the "
-            "code by running both on random and exhaustively enumerated tables written into a fake /proc.",
+            "any size, processes vanishing after the snapshot): children() = exactly the listed processes naming the caller as parent, not "
+            "older than it, never the caller; children(recursive=True) terminates within |table|+1 loop iterations on ANY parent-link graph, "
+            "returns every process at most once, never the caller, and exactly the processes reachable through parent links; parent() = the "
+            "process named by ppid() unless unlisted or younger (None for the root; hypothesis: lowest-PID cache fresh); parents() terminates "
+            "within |table|+1 steps on ANY table, is the chain of parent() whenever that chain ends, and the chain ends on every table without "
+            "cyclic links; every call raises NoSuchProcess for a recycled caller. Refuted statements kept for the code before the three repairs "
+            "this check led to (caller returned by children() on a ppid cycle; parents() not terminating on a self-loop; recycled lowest PID "
+            "got None) and for the known finding (stale lowest-PID cache). The model is tied to the code by running both on random and "
+            "exhaustively enumerated tables written into a fake /proc; the harness oracle for descendants is proved equal to the inductive set.",
     "note": "Trusted: Coq kernel + vm_compute; hand-written model coq/C05/Model.v (tied by the correspondence run only); harness (fake /proc, "
             "os.listdir order patch, ppid_map wrapper, itimer guard); CPython floats/dicts/sets. Proof covers the model, sampling covers model-vs-code.",
 }
